@@ -15,7 +15,7 @@ BUILTINS = {'len', 'range', 'ord', 'chr', 'int', 'str', 'bool', 'bytes', 'bytear
             'sorted', 'enumerate', 'list', 'tuple', 'dict', 'set', 'any', 'all', 'getattr', 'print', 'repr', 'abs',
             'sum', 'zip', 'hasattr', 'type', 'float', 'bin', 'hex', 'reversed', 'map', 'filter', 'open', 'id',
             'implies', 'iff', 'old', 'True', 'False', 'None', 'object', 'divmod', 'pow', 'round', 'callable',
-            'Exception', 'frozenset', 'iter', 'next', 'super', 'format', 'setattr', 'chr8'}
+            'Exception', 'frozenset', 'iter', 'next', 'super', 'format', 'setattr', 'chr8', 'all_bytes'}
 
 MODULE_CONSTS = {
     'sys.maxsize': 2 ** 63 - 1,
@@ -264,11 +264,12 @@ def str_binop(ip, st, op, a, b, ta, tb):
             parts = [S(s)] * n
             return mk(parts[0] if n == 1 else z3.Concat(*parts), t)
         if isinstance(s, (str, bytes)) and len(s) == 1:
-            # single char repeated a symbolic number of times: r in c*, len(r) == max(n, 0)
-            r = fresh('rep', t)
+            # single char repeated a symbolic number of times: the recursive spec function rep / rep_s; its length
+            # (lemma rep_len, proved in the lemma library of every check that gets here) is stated at creation
+            r = ip.specs.call(ip, st, 'rep' if t == 'bytes' else 'rep_s', [s, n], {})
             nn = I(n)
-            st.pc.append(z3.InRe(r.t, z3.Star(z3.Re(zstr(s)))))
-            st.pc.append(z3.Length(r.t) == z3.If(nn > 0, nn, 0))
+            st.pc.append(z3.Length(S(r)) == z3.If(nn > 0, nn, 0))
+            ip.used_lemmas.add('rep_len' if t == 'bytes' else 'rep_s_len')
             return r
         raise Unsupported('symbolic string repetition')
     if isinstance(op, ast.Mod):
